@@ -24,8 +24,8 @@ from tools import vlib
 from tools.vlib import Outcome, sx
 
 MANIFEST = {
-    "level_text": "Coq theorems (Properties/C19.v, no axioms) about a Gallina transcription of save_to_tauri_config / from_tauri_config / validate (config.rs) and of the configuration phase of run_generate and run_init (bin): for every JSON document, every settings value, every path into the document outside plugins.typegen, every set of files and every flag set: preservation of every other path (C19_preserve), read-back of the written settings (C19_roundtrip), flag over file over default for all observable settings (C19_precedence), refusal without any write (C19_generate_reject_first, C19_init_reject_first) - each on the complement of a boolean known-finding class with a computed counterexample inside the class. The model is tied to /repo on every run: library calls on random documents (compared as JSON values) and the real binary on all 2^5 flag subsets x configuration-file variants and on random init runs.",
-    "level_note": "JSON numbers are opaque tokens of serde_json's number model (u64/i64/f64): preservation of numbers is equality of those values, not of their spelling (1e3 comes back as 1000.0). Parsing and printing of JSON text (serde_json) is outside the model: the model starts from the parsed value. Analysis and generation are reduced to which project, which output directory, which mode. Not modelled: the explicit -c/--config standalone file (from_file), init targets not named tauri.conf.json, the build-script entry (build/mod.rs load_configuration: file over default only, no flags). Force is observed through an immediate identical second run (relies on the cache being stable for a one-command project). The boolean oracles are proved to agree with the theorems only through the model (C19_oracle_* lemmas cover the model's own output).",
+    "level_text": "Coq theorems (Properties/C19.v, no axioms) about a Gallina transcription of save_to_tauri_config / from_tauri_config / validate (config.rs) and of the configuration phase of run_generate and run_init (bin): for every JSON document, every settings value (all twelve fields), every path into the document outside plugins.typegen, every set of files and every flag set: an accepted save preserves every other path (C19_preserve) and reads back as the settings written (C19_roundtrip); the save is refused with an error exactly when the root or plugins is not an object (C19_save_refused); init refuses invalid settings and unwritable documents without touching any file (C19_init_reject_first, C19_init_unsaveable) and otherwise leaves save_doc of the old document (C19_init_document); generate uses flag over file over default for all observable settings and refuses invalid effective settings without a write (C19_precedence, C19_generate_reject_first) on the complement of the two remaining known-finding classes C19-1 and C19-6, each with a computed counterexample. The model is tied to /repo on every run: library calls on random documents (compared as JSON values) and the real binary on all 2^5 flag subsets x configuration-file variants and on random init runs.",
+    "level_note": "JSON numbers are opaque tokens of serde_json's number model (u64/i64/f64): preservation of numbers is equality of those values, not of their spelling (1e3 comes back as 1000.0). Parsing and printing of JSON text (serde_json) is outside the model: the model starts from the value serde_json reads, the oracle from the reference reading of the text (a misread decimal is therefore reported). Analysis and generation are reduced to which project, which output directory, which mode. Not modelled: the explicit -c/--config standalone file (from_file), init targets not named tauri.conf.json, the build-script entry (build/mod.rs load_configuration: file over default only, no flags). Force is observed through an immediate identical second run (relies on the cache being stable for a one-command project). Of the boolean oracles only roundtrip_b is proved to accept the model's own output.",
     "technique": "Rocq/Coq proof over hand-written model + correspondence check (extracted OCaml vs Rust harness and the real CLI binary in sandboxes)",
     "design_ref": "DESIGN.md section 5 C19, section 11 (preserve/save_writes/roundtrip/precedence spike)"
 }
@@ -41,7 +41,7 @@ RULE = ("lib: random JSON documents (depth <= 5; Unicode, escaped and surrogate-
         "distinct = distinct cases by content hash")
 TRUSTED = [
     "serde_json 1.0.151 (default features: no preserve_order, no arbitrary_precision, no float_roundtrip) parsing/printing; python json as the reference reader of documents",
-    "Spec/C19Spec.v boolean oracles (preserved_b enumerates the paths of both documents; generate_ok_b; init_ok_b)",
+    "Spec/C19Spec.v boolean oracles (lib_ok_b / preserved_b enumerates the paths of both documents; generate_ok_b; init_ok_b)",
     "observation of the real binary: exit status, byte snapshot of the sandbox, commands.ts header and wrapper name, marker lines in the output",
 ]
 ASSUMPTIONS = [
@@ -388,13 +388,13 @@ def lib_case(rng, i, text=None, cfg=None, mkproj=None):
 
 LIB_CORPUS = [
     # (name, text, cfg overrides, mkproj)
-    ("C19-3 witness: plugins is an array", '{"productName":"x","plugins":[1,2]}', {}, True),
-    ("C19-4 witness: root is an array", '[1, {"a": 2}]', {}, True),
-    ("C19-5 witness: naming convention dropped", '{"a":1}', {"default_parameter_case": "snake_case"}, True),
+    ("regression (fixed C19-3): plugins is an array is refused", '{"productName":"x","plugins":[1,2]}', {}, True),
+    ("regression (fixed C19-4): root array is refused", '[1, {"a": 2}]', {}, True),
+    ("regression (fixed C19-5): naming conventions read back", '{"a":1}', {"default_parameter_case": "snake_case"}, True),
     ("test_save_to_tauri_config_preserves_existing_content",
      '{"package":{"productName":"My App","version":"1.0.0"},"tauri":{"allowlist":{"all":false}},"plugins":{"shell":{"all":false}}}',
      {"output_path": "./test", "validation_library": "zod", "verbose": True}, True),
-    ("C19-7 witness: decimal misread by serde_json without float_roundtrip", '{"a":24798.800975902122,"b":9007199254740993.0}', {}, True),
+    ("regression (fixed C19-7): decimals keep their value", '{"a":24798.800975902122,"b":9007199254740993.0}', {}, True),
     ("numbers", '{"u":18446744073709551615,"i":-9223372036854775808,"big":18446744073709551616,"e":1e3,"d":2.50,"z":-0,"p":{"x":[1.5e-7,0.1]}}', {}, True),
     ("strings", '{"s":"\\u00e9\\ud83d\\ude00\\n\\"\\\\\\/","k\\u00e9y":"\u65e5\u672c","":""}', {}, True),
     ("existing section replaced", '{"plugins":{"typegen":{"projectPath":"./old","extra":1,"force":true},"shell":{"open":true}}}', {}, True),
@@ -434,9 +434,14 @@ def eval_lib(cases, scratch):
         else:
             impl_loaded = [ld["kind"]]
         pre[c["id"]] = (before, after, impl_loaded)
+        untouched = o.get("after_text") == c["text"]
+        if o["save"] == "ok":
+            impl_after = [] if after is None else [to_sx(after)]
+        else:
+            impl_after = [] if untouched else ([to_sx(after)] if after is not None else [])
         sexps.append(sx([cfg_sx(c["cfg"]), [] if bref is None else [to_sx(bref)],
                          [] if before is None else [to_sx(before)], bool(o["mkproj_done"]),
-                         [] if after is None else [to_sx(after)], impl_loaded]))
+                         impl_after, impl_loaded]))
         idx.append(c["id"])
     res = dict(zip(idx, vlib.run_runner("c19-lib", sexps)))
     outs = []
@@ -457,24 +462,23 @@ def eval_lib(cases, scratch):
             outs.append(Outcome(case, good, good, detail={"impl": {"save": o["save"], "load": o["load"]["kind"]},
                                                           "model": "unparseable: Err, nothing written"}, nontrivial=False))
             continue
-        saved, loaded, pres, rt, kfs = from_sx(m[0]), m[1], m[2] == "true", m[3] == "true", list(m[4])
-        pres_serde = m[5] == "true"
-        corr_doc = o["save"] == "ok" and after is not None and after == saved
+        saved = from_sx(m[0][0]) if m[0] else None
+        loaded, ok = m[1], m[2] == "true"
+        untouched = o.get("after_text") == c["text"]
+        if saved is None:
+            # the settings cannot be written into this document: InvalidConfig, file untouched
+            corr_doc = o["save"] == "invalid" and untouched
+        else:
+            corr_doc = o["save"] == "ok" and after is not None and after == saved
+        if o["save"] != "ok" and not untouched:
+            ok = False                      # an error after something was written
         corr_load = vlib.sx_parse(sx(impl_loaded)) == loaded
         corr = corr_doc and corr_load
-        ok = pres and rt
-        kf = None
-        if not ok:
-            why = []
-            if not pres:
-                why.append("C19-4" if "C19-4" in kfs else ("C19-7" if ("C19-7" in kfs and pres_serde) else None))
-            if not rt:
-                why.append("C19-3" if "C19-3" in kfs else ("C19-5" if "C19-5" in kfs else None))
-            kf = why[0] if all(why) else None      # every failing oracle must be explained by a class
-        det = {"impl": {"save": o["save"], "after": None if after is None else plain(after), "load": o["load"]},
-               "model": {"after": plain(saved), "load": loaded}, "preserved": pres, "roundtrip": rt, "classes": kfs}
+        kf = None                           # no recorded defect is left at the library level
+        det = {"impl": {"save": o["save"], "untouched": untouched, "after": None if after is None else plain(after), "load": o["load"]},
+               "model": {"after": None if saved is None else plain(saved), "load": loaded}, "oracle_ok": ok}
         if ok and corr:
-            det = {"preserved": pres, "roundtrip": rt, "classes": kfs, "load": o["load"]["kind"]}
+            det = {"save": o["save"], "load": o["load"]["kind"]}
         nontrivial = before[0] == "o" and any(k != "plugins" for k, _ in before[1])
         outs.append(Outcome(case, corr, ok, kf, det, nontrivial))
     return outs
@@ -852,14 +856,7 @@ def eval_init(cases):
             corr = kind == "nocommands" and corr_doc
         else:
             corr = kind == "run" and eff and vlib.sx_parse(sx(obs[1])) == eff[0] and corr_doc
-        kf = None
-        if not ok:
-            for k in ("C19-2", "C19-3", "C19-4"):
-                if k in kfs:
-                    kf = k
-                    break
-            if kf is None and "C19-7" in kfs and ok_serde:
-                kf = "C19-7"
+        kf = None                           # no recorded defect is left for init
         det = {"impl": {"seen": obs, "raw": raw, "doc_after": None if doc_after is None else plain(doc_after)},
                "model": {"result": result, "target": target, "doc_after": None if model_doc is None else plain(model_doc)},
                "classes": kfs}
@@ -870,13 +867,13 @@ def eval_init(cases):
 
 
 INIT_CORPUS = [
-    ("C19-2 witness: init -v foo writes the bad value, then exits 1", {"src_tauri": "proj", "files": {"src-tauri/tauri.conf.json": '{"a":1}'}},
+    ("regression (fixed C19-2): init -v foo is refused before the file is touched", {"src_tauri": "proj", "files": {"src-tauri/tauri.conf.json": '{"a":1}'}},
      {"project": None, "generated": None, "output": None, "lib": "foo", "verbose": False, "viz": False}),
-    ("C19-2: init -p ./nope", {"src_tauri": "proj", "files": {"tauri.conf.json": '{"a":1}'}},
+    ("regression (fixed C19-2): init -p ./nope", {"src_tauri": "proj", "files": {"tauri.conf.json": '{"a":1}'}},
      {"project": "./nope", "generated": None, "output": "./tauri.conf.json", "lib": None, "verbose": False, "viz": False}),
-    ("C19-3 witness: plugins is an array, init reports success", {"src_tauri": "proj", "files": {"src-tauri/tauri.conf.json": '{"a":1,"plugins":[1,2]}'}},
+    ("regression (fixed C19-3): init on plugins array is an error", {"src_tauri": "proj", "files": {"src-tauri/tauri.conf.json": '{"a":1,"plugins":[1,2]}'}},
      {"project": None, "generated": None, "output": None, "lib": None, "verbose": False, "viz": False}),
-    ("C19-4: root array", {"src_tauri": "proj", "files": {"src-tauri/tauri.conf.json": '[1,2]'}},
+    ("regression (fixed C19-4): init on root array is an error", {"src_tauri": "proj", "files": {"src-tauri/tauri.conf.json": '[1,2]'}},
      {"project": None, "generated": None, "output": None, "lib": "zod", "verbose": False, "viz": False}),
     ("plain init", {"src_tauri": "proj", "files": {"src-tauri/tauri.conf.json": '{"a":1e3,"b":18446744073709551615,"plugins":{"x":{}}}'}},
      {"project": None, "generated": None, "output": None, "lib": None, "verbose": True, "viz": False}),
@@ -954,7 +951,7 @@ def run(rep):
             "invalid_library": sum(1 for c in cases if c["cfg"]["validation_library"] not in ("zod", "none")),
             "project_missing": sum(1 for c in cases if not c["mkproj"]),
             "naming_convention_set": sum(1 for c in cases if c["cfg"]["default_parameter_case"] != "camelCase" or c["cfg"]["default_field_case"] != "snake_case"),
-            "in_known_class": sum(1 for o in outs if o.detail.get("classes")),
+            "refused_documents": sum(1 for o in outs if o.detail.get("save") == "invalid"),
         }
         rep.extra["reader_disagreements"] = READER_DISAGREEMENTS[:20]
     lap("lib done")
